@@ -71,8 +71,16 @@ pub(crate) fn mq(modifier: Option<&str>, ty: Option<&str>, conds: &[&str]) -> Me
     }
 }
 
-/// The contract of `merge` for one concrete pair, in both argument orders.
-pub(crate) fn check_merge(q1: &MediaQuery, q2: &MediaQuery) {
+pub(crate) const ANY: u8 = 0;
+pub(crate) const SUCCESS: u8 = 1;
+pub(crate) const EMPTY: u8 = 2;
+pub(crate) const UNREPRESENTABLE: u8 = 3;
+
+/// The contract of `merge` for one concrete pair, in both argument orders. `expect`
+/// is the outcome class the statement requires for this pair (a single query when
+/// the intersection can be written as one, Empty when it is empty, Unrepresentable
+/// only when it is neither), or ANY.
+pub(crate) fn check_merge(q1: &MediaQuery, q2: &MediaQuery, expect: u8) {
     let e = any_env();
     let both = sat(q1, e) && sat(q2, e);
     let mut order = 0;
@@ -88,6 +96,12 @@ pub(crate) fn check_merge(q1: &MediaQuery, q2: &MediaQuery) {
             }
             MediaQueryMergeResult::Unrepresentable => {}
         }
+        let class = match &r {
+            MediaQueryMergeResult::Success(_) => SUCCESS,
+            MediaQueryMergeResult::Empty => EMPTY,
+            MediaQueryMergeResult::Unrepresentable => UNREPRESENTABLE,
+        };
+        assert!(expect == ANY || class == expect, "C17/K/merge: wrong outcome class (merged / dropped / kept nested) for this pair");
         order += 1;
     }
 }
